@@ -165,6 +165,187 @@ def gen_funfit():
     return "\n".join(parts)
 
 
+# ==========================================================================================
+# dataset registry -> Gen/Registry.v ; description tables -> Gen/DocTables.v ; bundled CSVs -> Gen/Bundled.v
+# ==========================================================================================
+DS_MODULES = ["_sandvine.py", "_mix_it.py", "_ams_ix.py", "_ix_br.py"]
+
+
+def _cstr(s):
+    if '"' in s or "\\" in s or "\n" in s:
+        raise TranslateError("string not representable: %r" % s)
+    return '"%s"' % s
+
+
+def _const_str(node, consts, where):
+    if isinstance(node, ast.Constant) and isinstance(node.value, str):
+        return node.value
+    if isinstance(node, ast.Name) and node.id in consts:
+        return consts[node.id]
+    raise TranslateError("%s: expected a string literal or module constant, got %s" % (where, ast.dump(node)[:80]))
+
+
+def _parse_loader_module(fname):
+    tree = ast.parse(_src(os.path.join("datasets", fname)))
+    consts, loaders = {}, []
+    for node in tree.body:
+        where = "%s:%d" % (fname, getattr(node, "lineno", 0))
+        if isinstance(node, ast.Expr) and isinstance(node.value, ast.Constant):
+            continue
+        if isinstance(node, (ast.Import, ast.ImportFrom)):
+            continue
+        if isinstance(node, ast.Assign) and len(node.targets) == 1 and isinstance(node.targets[0], ast.Name) \
+                and isinstance(node.value, ast.Constant) and isinstance(node.value.value, str):
+            consts[node.targets[0].id] = node.value.value
+            continue
+        if not isinstance(node, ast.FunctionDef):
+            raise TranslateError("%s: top-level statement not accepted" % where)
+        body = list(node.body)
+        if body and isinstance(body[0], ast.Expr) and isinstance(body[0].value, ast.Constant):
+            body = body[1:]
+        if node.name.endswith("_dataset_description"):
+            continue
+        if not (node.args.kwarg and node.args.kwarg.arg == "kwargs" and not node.args.args and not node.args.vararg):
+            raise TranslateError("%s: loader %s must have the signature (**kwargs)" % (where, node.name))
+
+        def kwargs_forwarded(call):
+            return any(k.arg is None and isinstance(k.value, ast.Name) and k.value.id == "kwargs" for k in call.keywords)
+        if len(body) == 1 and isinstance(body[0], ast.Return) and isinstance(body[0].value, ast.Call) \
+                and getattr(body[0].value.func, "id", None) == "load_csv_dataset_from_resources":
+            call = body[0].value
+            if len(call.args) != 1 or not kwargs_forwarded(call) or len(call.keywords) != 1:
+                raise TranslateError("%s: unexpected arguments of load_csv_dataset_from_resources" % where)
+            a = call.args[0]
+            if not (isinstance(a, ast.Call) and isinstance(a.func, ast.Attribute) and a.func.attr == "join" and len(a.args) == 2):
+                raise TranslateError("%s: expected path.join(folder, file)" % where)
+            loaders.append((node.name, "Bundled", [_const_str(a.args[0], consts, where), _const_str(a.args[1], consts, where)]))
+            continue
+        if len(body) == 2 and isinstance(body[0], ast.Assign) and isinstance(body[0].value, ast.Call) \
+                and getattr(body[0].value.func, "id", None) == "RemoteFileMetadata" and isinstance(body[1], ast.Return) \
+                and isinstance(body[1].value, ast.Call) and getattr(body[1].value.func, "id", None) == "load_csv_dataset_from_remote":
+            rm = {k.arg: k.value for k in body[0].value.keywords}
+            if set(rm) != {"filename", "url", "checksum"} or body[0].value.args:
+                raise TranslateError("%s: RemoteFileMetadata must be built with filename=, url=, checksum=" % where)
+            call = body[1].value
+            kw = {k.arg: k.value for k in call.keywords if k.arg}
+            if call.args or set(kw) != {"remote", "dataset_filename", "dataset_folder", "validate_checksum"} or not kwargs_forwarded(call):
+                raise TranslateError("%s: unexpected arguments of load_csv_dataset_from_remote: %s" % (where, sorted(kw)))
+            if not (isinstance(kw["remote"], ast.Name) and kw["remote"].id == body[0].targets[0].id):
+                raise TranslateError("%s: remote= must be the metadata built above" % where)
+            if not (isinstance(kw["validate_checksum"], ast.Constant) and isinstance(kw["validate_checksum"].value, bool)):
+                raise TranslateError("%s: validate_checksum must be a boolean literal" % where)
+            for key_, val_ in (("filename", _const_str(rm["filename"], consts, where)), ("dataset_filename", _const_str(kw["dataset_filename"], consts, where))):
+                rest = val_
+                while rest.startswith("./"):
+                    rest = rest[2:]
+                if "/" in rest or rest in ("", ".", ".."):
+                    raise TranslateError("%s: %s=%r contains a path separator the model does not normalise" % (where, key_, val_))
+            loaders.append((node.name, "Remote", [_const_str(rm["filename"], consts, where), _const_str(rm["url"], consts, where),
+                                                  _const_str(rm["checksum"], consts, where), _const_str(kw["dataset_filename"], consts, where),
+                                                  _const_str(kw["dataset_folder"], consts, where)], kw["validate_checksum"].value))
+            continue
+        raise TranslateError("%s: body of loader %s is outside the accepted grammar" % (where, node.name))
+    return loaders
+
+
+@target("Registry")
+def gen_registry():
+    out = ["(** GENERATED by tools/translate.py from /repo/src/traffic_weaver/datasets/{_sandvine,_mix_it,_ams_ix,_ix_br,_datasets}.py — do not edit. *)",
+           "From Coq Require Import String List.", "Import ListNotations.", "Open Scope string_scope.", "",
+           "Inductive loader :=", "| Bundled (folder file : string)",
+           "| Remote (filename url checksum dataset_filename dataset_folder : string) (validate_checksum : bool).", ""]
+    rows = []
+    for fn in DS_MODULES:
+        for l in _parse_loader_module(fn):
+            if l[1] == "Bundled":
+                rows.append("  (%s, Bundled %s %s)" % (_cstr(l[0]), _cstr(l[2][0]), _cstr(l[2][1])))
+            else:
+                rows.append("  (%s, Remote %s %s)" % (_cstr(l[0]), " ".join(_cstr(s) for s in l[2]), "true" if l[3] else "false"))
+    out.append("(* every loader function defined in the four family modules *)")
+    out.append("Definition loaders : list (string * loader) := [\n" + ";\n".join(rows) + "\n].\n")
+    # names visible as attributes of the aggregation module _datasets.py
+    tree = ast.parse(_src(os.path.join("datasets", "_datasets.py")))
+    exports = []
+    for node in tree.body:
+        if isinstance(node, ast.ImportFrom):
+            if node.level != 1 or node.module not in ("_sandvine", "_mix_it", "_ams_ix", "_ix_br"):
+                raise TranslateError("_datasets.py:%d: unexpected import source %r" % (node.lineno, node.module))
+            for a in node.names:
+                if a.name == "*":
+                    raise TranslateError("_datasets.py:%d: star import not accepted" % node.lineno)
+                exports.append(((a.asname or a.name), a.name, node.module))
+        elif isinstance(node, ast.Expr) and isinstance(node.value, ast.Constant):
+            continue
+        else:
+            raise TranslateError("_datasets.py:%d: statement not accepted" % node.lineno)
+    out.append("(* attribute name in _datasets.py, function it is bound to *)")
+    out.append("Definition exports : list (string * string) := [\n" + ";\n".join("  (%s, %s)" % (_cstr(a), _cstr(b)) for a, b, _ in exports) + "\n].\n")
+    return "\n".join(out)
+
+
+@target("DocTables")
+def gen_doctables():
+    d = os.path.join(REPO, "src", "traffic_weaver", "datasets", "data_description")
+    out = ["(** GENERATED by tools/translate.py from /repo/src/traffic_weaver/datasets/data_description/*.md — do not edit. *)",
+           "From Coq Require Import String List.", "Import ListNotations.", "Open Scope string_scope.", ""]
+    rows = []
+    fams = {"sandvine.md": "sandvine", "mix_it.md": "mix-it", "ams_ix.md": "ams-ix", "ix_br.md": "ix-br"}
+    for fn in sorted(fams):
+        p = os.path.join(d, fn)
+        try:
+            lines = open(p, encoding="utf-8").read().splitlines()
+        except OSError as e:
+            raise TranslateError("cannot read %s: %s" % (fn, e))
+        n = 0
+        for ln in lines:
+            if not ln.startswith("|"):
+                continue
+            cells = [c.strip() for c in ln.strip().strip("|").split("|")]
+            if len(cells) < 3 or not cells[0].isdigit():
+                continue
+            n += 1
+            if int(cells[0]) != n:
+                raise TranslateError("%s: table row numbering broken at %r" % (fn, ln[:60]))
+            rows.append("  (%s, %s, %s)" % (_cstr(fams[fn]), _cstr(cells[1]), _cstr(cells[2])))
+        if n == 0:
+            raise TranslateError("%s: no table rows found" % fn)
+    out.append("(* family, documented dataset name, repository file name *)")
+    out.append("Definition doc_names : list (string * string * string) := [\n" + ";\n".join(rows) + "\n].\n")
+    return "\n".join(out)
+
+
+@target("Bundled")
+def gen_bundled():
+    from fractions import Fraction
+    d = os.path.join(REPO, "src", "traffic_weaver", "datasets", "data")
+    out = ["(** GENERATED by tools/translate.py from /repo/src/traffic_weaver/datasets/data/*/*.csv — do not edit.",
+           "    Decimal literals are rendered as exact rationals. *)",
+           "From TW Require Import Lib.Base.", "From Coq Require Import String.", "Open Scope Qc_scope.", ""]
+    rows = []
+    for folder in sorted(os.listdir(d)):
+        fd = os.path.join(d, folder)
+        if not os.path.isdir(fd) or folder.startswith("__"):
+            continue
+        for fn in sorted(os.listdir(fd)):
+            if not fn.endswith(".csv"):
+                continue
+            xs, ys = [], []
+            for k, ln in enumerate(open(os.path.join(fd, fn)).read().splitlines()):
+                if not ln.strip():
+                    continue
+                cells = [c.strip() for c in ln.split(",")]
+                if len(cells) != 2:
+                    raise TranslateError("%s/%s:%d: expected two columns" % (folder, fn, k + 1))
+                try:
+                    xs.append(Fraction(cells[0]))
+                    ys.append(Fraction(cells[1]))
+                except ValueError:
+                    raise TranslateError("%s/%s:%d: not a decimal literal" % (folder, fn, k + 1))
+            rows.append("  (%s%%string, %s%%string,\n   [%s],\n   [%s])" % (_cstr(folder), _cstr(fn), "; ".join(_num(v) for v in xs), "; ".join(_num(v) for v in ys)))
+    out.append("Definition bundled_files : list (string * string * list Qc * list Qc) := [\n" + ";\n".join(rows) + "\n].\n")
+    return "\n".join(out)
+
+
 # MAIN-BLOCK (keep last)
 if __name__ == "__main__":
     import sys
